@@ -16,6 +16,7 @@
     (`C05_answer_lost_witness`).
 -/
 import Mcp.Model.Routing
+import Mcp.Model.RoutingToday
 import Mcp.Gen.PendingFacts
 namespace Mcp.Props.C05
 open Mcp.Str Mcp.Ids Mcp.Routing
@@ -702,14 +703,9 @@ theorem C05_leak_witness :
 
 /-! ## regenerated facts (T-gen) -/
 
-/-- the region of the model family the current source is in: no pending-table lookup takes the posting session into
-    account (D13); nothing calls a session's `Initialize()` while `sendNotificationToSession` insists on it (D14);
-    every insert has its deferred delete. -/
-def factsToday : Facts :=
-  ⟨Mcp.Gen.pdTables.all (·.lookupUsesSession),
-   Mcp.Gen.pdSessionInitializeCalled || !Mcp.Gen.pdSseSendChecksInitialized,
-   Mcp.Gen.pdTables.all (·.deferredDelete)⟩
-
+/-- The region of the model family the current source is in (`Mcp.Routing.factsToday`, computed from the regenerated
+    facts): no pending-table lookup takes the posting session into account (D13); nothing calls a session's `Initialize()`
+    while `sendNotificationToSession` insists on it (D14); every insert has its deferred delete. -/
 theorem C05_fact_region : factsToday = ⟨false, false, true⟩ := by decide
 
 /-- the three server tables are keyed as the model keys them (`keyKind`): Streamable by `%v`, legacy SSE and stdio by
